@@ -72,6 +72,12 @@ var stmts = []item{
 	{"var-stmt-init", "x++\n;;\nvar label = \"sum\"\n;;\nlabel += \"!\"\n;;\nShow(label, x)", []string{"x"}, ""},
 	{"var-stmt-multi", "x++\n;;\nvar u, w = x, x * 2\n;;\nu += w\n;;\nShow(\"uw\", u, w)", []string{"x"}, ""},
 	{"define-then-closure", "z := x\n;;\ngz := func() int { return z * 2 }\n;;\nz++\n;;\nShow(\"gz\", gz(), z)", []string{"x"}, ""},
+	// tuple definitions (multi-value call, comma-ok, several values) whose variables are captured by a closure / pointer and
+	// then partly REdeclared by a later tuple definition: the redeclared name stays the same variable
+	{"tuple-redeclare-call", "dm := func(a, b int) (int, int) { return a / b, a % b }\n;;\nta, tb := dm(29+x, 3)\n;;\nget := func() int { return ta }\n;;\nta, tc := dm(39, 3)\n;;\nShow(\"t\", ta, tb, tc, get())", []string{"x"}, ""},
+	{"tuple-redeclare-ptr", "dm := func(a, b int) (int, int) { return a / b, a % b }\n;;\nua, ub := dm(17+x, 5)\n;;\npu := &ua\n;;\nua, uc := dm(40, 7)\n;;\n*pu += 100\n;;\nShow(\"u\", ua, ub, uc, *pu)", []string{"x"}, ""},
+	{"tuple-redeclare-values", "va, vb := x, 2\n;;\ngv := func() int { return va + vb }\n;;\nva, vc := 10, 20\n;;\nShow(\"v\", va, vb, vc, gv())", []string{"x"}, ""},
+	{"tuple-commaok", "mv, ok := m[\"a\"]\n;;\ngm := func() int { return mv }\n;;\nmv, ok2 := m[\"zz\"]\n;;\nShow(\"mv\", mv, ok, ok2, gm())", []string{"m"}, ""},
 	// closures created by a loop of a top-level statement, called by later statements
 	{"loop-closures", "for i := 0; i < 3; i++ {\n\tfs = append(fs, func() int { return i * 10 })\n}", []string{"fs", "calls"}, ""},
 	{"range-closures", "for k, v := range []string{\"a\", \"bb\"} {\n\tfs = append(fs, func() int { return k*100 + len(v) })\n}", []string{"fs", "calls"}, ""},
@@ -476,7 +482,7 @@ func main() {
 	ps := programs(maxD, maxS)
 	if r.Thorough() {
 		// wider declaration sets with one statement item, and pairs of statement items over smaller declaration sets
-		// (the full product 5 x 2 does not fit in memory since the statement alphabet has 24 items)
+		// (the full product 5 x 2 does not fit in memory since the statement alphabet has 28 items)
 		maxD, maxS = 5, 2
 		seen := map[string]bool{}
 		ps = nil
@@ -651,7 +657,7 @@ func main() {
 	r.Set("distinct_nontrivial", len(res.Sets["outputs"]))
 	r.Set("whole_programs_rejected_runs", res.Counts["whole_program_rejected"])
 	r.Set("exhaustive", true)
-	r.Set("rule", fmt.Sprintf("programs = every dependency-closed subset of <= %d (thorough: <= 5 with one statement item, <= 3 with two) of 18 declaration items (define-before-use order) x every sequence (24 statement items, incl. blocks that shadow a global and var statements in the middle of a chunk used by later chunks) of <= %d applicable statements + a final Show of all declared globals; every cut of the declaration section and of the statement section into consecutive chunks (statement sections with more than 5 cut points: no cut, every cut, each single cut, each single missing cut) x {successive Eval, Compile+Execute, CompileAST+Execute}; whole program through Compile+Execute, CompileAST, EvalPath on disk and on MapFS; every cut of the declaration section written as the files of one package directory (file names in chunk order and in reverse chunk order, main in the last / first file) and loaded by EvalPath(dir) on disk and on MapFS; reference = Eval of the whole program in a fresh interpreter; states = distinct whole-program outputs", maxD, maxS))
+	r.Set("rule", fmt.Sprintf("programs = every dependency-closed subset of <= %d (thorough: <= 5 with one statement item, <= 3 with two) of 18 declaration items (define-before-use order) x every sequence (28 statement items, incl. tuple definitions captured and partly redeclared by later chunks, blocks that shadow a global and var statements in the middle of a chunk used by later chunks) of <= %d applicable statements + a final Show of all declared globals; every cut of the declaration section and of the statement section into consecutive chunks (statement sections with more than 5 cut points: no cut, every cut, each single cut, each single missing cut) x {successive Eval, Compile+Execute, CompileAST+Execute}; whole program through Compile+Execute, CompileAST, EvalPath on disk and on MapFS; every cut of the declaration section written as the files of one package directory (file names in chunk order and in reverse chunk order, main in the last / first file) and loaded by EvalPath(dir) on disk and on MapFS; reference = Eval of the whole program in a fresh interpreter; states = distinct whole-program outputs", maxD, maxS))
 	r.Assumptions = []string{"a chunk is either declarations or statements (declarations precede statements); forward references across a cut are not demanded", "reference = the whole program evaluated once (C01 binds that to the compiler)"}
 	for _, i := range []int{0, len(runs) / 2, len(runs) - 1} {
 		r.Sample(map[string]interface{}{"program": runs[i].P.Name, "mode": runs[i].Mode, "decl_cuts": runs[i].DMask, "stmt_cuts": runs[i].SMask, "decls": runs[i].P.Decls, "stmts": runs[i].P.Stmts})
